@@ -9,7 +9,7 @@ PID = "C11"
 
 def obligations(tier):
     obs = []
-    ns = (2, 3, 4) if tier == "quick" else (2, 3, 4, 5)
+    ns = (2, 3, 4) if tier == "quick" else (2, 3, 4, 5, 6)
     for interp in INTERPS:
         for n in ns:
             obs.append(dict(id=f"{interp} {n} nodes", interp=interp, n=n))
@@ -128,8 +128,8 @@ def run(tier, seed):
     standard_finish(PID, ev, obs + [dict(id=h) for h in harnesses], results + [{"ob": h, "paths": 1, "checks": res[h].get("checks", 0), "holds": res[h].get("checks", 0) if res[h]["status"] == "success" else 0} for h in harnesses], tot,
                     lambda f: {"site": f.get("ob", "").split(" ")[0]},
                     bounds={"interval_selection": f"index_left::<i64> on EVERY strictly increasing list of {harnesses[0][-1]}..{harnesses[-1][-1]} keys and every query (Kani, bit-precise, exact)",
-                            "formulas": "2..4 (quick) / 2..5 (thorough) nodes with symbolic distinct dates (every supply order via the real sort), symbolic positive values, symbolic query date before/at/between/after the nodes, all 5 rules",
-                            "outside": "more than 5 nodes for the formulas (index logic covered to 9); intra-day timestamps; log-linear 'between' clause (needs monotonic exp/ln) is proved for the linear rule only"},
+                            "formulas": "2..4 (quick) / 2..6 (thorough) nodes with symbolic distinct dates (every supply order via the real sort), symbolic positive values, symbolic query date before/at/between/after the nodes, all 5 rules",
+                            "outside": "more than 6 nodes for the formulas (index logic covered to 9); intra-day timestamps; log-linear 'between' clause (needs monotonic exp/ln) is proved for the linear rule only"},
                     rule="K: one obligation per list length; M: obligation = (rule, node count), paths = sort orders x index_left branches; one validity query per path with a declarative oracle (adjacent pair whose right end is the first node >= x)",
                     assumptions=["reals; ln/exp uninterpreted: the log-type rules are compared in log space (the exponent passed to exp is checked as an exact rational identity)", "dates at midnight"])
 
